@@ -232,3 +232,101 @@ def eq_covers_slots(prog: Program, res, rule: str, ci: ClassInfo, *, exceptions:
         res.violation(rule, eq, eq.node, f"{ci.name}.__eq__ does not compare attribute(s) {missing}: objects differing only there compare equal", key_extra=f"eq-misses-{'-'.join(missing)}")
     else:
         res.ok(rule, res.site(eq), f"__eq__ reads all of {slots}" + (f" (frozen exceptions: {sorted(exceptions)})" if exceptions else ""))
+
+
+# ----------------------------------------------------------------------------- memoisation
+
+
+MEMO_DECORATORS = ("lru_cache", "cache", "cached_property", "memoize", "memoise")
+
+
+def _module_containers(mod) -> set:
+    """names of module-level mutable containers ({} / dict() / [] / set() / defaultdict(...) / OrderedDict())"""
+    out = set()
+    for st in mod.tree.body if hasattr(mod, "tree") else []:
+        tgt = val = None
+        if isinstance(st, ast.Assign) and len(st.targets) == 1 and isinstance(st.targets[0], ast.Name):
+            tgt, val = st.targets[0].id, st.value
+        elif isinstance(st, ast.AnnAssign) and isinstance(st.target, ast.Name) and st.value is not None:
+            tgt, val = st.target.id, st.value
+        if tgt is None:
+            continue
+        if isinstance(val, (ast.Dict, ast.List, ast.Set)) and not getattr(val, "keys", getattr(val, "elts", [])):
+            out.add(tgt)
+        elif isinstance(val, ast.Call) and (dotted(val.func) or "").split(".")[-1] in ("dict", "list", "set", "defaultdict", "OrderedDict", "WeakValueDictionary") and not val.args:
+            out.add(tgt)
+    return out
+
+
+def memo_rule(prog: Program, res, rule: str, scope, what: str) -> None:
+    """results are recomputed from their inputs: no memoisation whose key cannot stand for everything the result
+    depends on.  (a) a function under functools.lru_cache / cache / cached_property must not (transitively) read
+    files: the file can be rewritten while the process lives; (b) a hand-rolled cache in a module-level container
+    must be keyed by the inputs themselves, not by a projection (attribute, getattr, repr, str, name) of them."""
+    from ..effects import summaries
+
+    S = summaries(prog)
+    n = 0
+    for fi in prog.funcs:
+        if not scope(fi):
+            continue
+        decos = [d.split(".")[-1] for d in fi.decorators()]
+        memo = [d for d in decos if d in MEMO_DECORATORS]
+        if memo:
+            n += 1
+            res.touch(fi)
+            reads = [(e, f) for e, f in S.may(fi) if e.kind == "fs" and (e.op == "read" or (e.op == "open" and not (e.mode and e.mode[0] in "wax")))]
+            if reads:
+                e, f = reads[0]
+                res.violation(
+                    rule,
+                    fi,
+                    fi.node,
+                    f"{fi.qualname} is memoised with @{memo[0]} but reads a file ({norm_stmt(e.call)[:50]}): {what} — the file can be rebuilt while the process lives, the memo then serves the old content "
+                    "(its key names the path, not the content)",
+                    key_extra=f"memo-file-{fi.qualname}",
+                )
+            else:
+                res.ok(rule, res.site(fi, f"@{memo[0]}"), "memoised function reads no file", nontrivial=False)
+        # (b) hand-rolled: G[key] = value  together with  … in G / G.get / G[key] read, G a module-level container
+        containers = _module_containers(fi.module)
+        if not containers:
+            continue
+        stores = [x for x in walk_no_nested(fi.node) if isinstance(x, ast.Assign) and isinstance(x.targets[0], ast.Subscript) and isinstance(x.targets[0].value, ast.Name) and x.targets[0].value.id in containers]
+        stores += [x for x in walk_no_nested(fi.node) if isinstance(x, ast.Call) and isinstance(x.func, ast.Attribute) and x.func.attr == "setdefault" and isinstance(x.func.value, ast.Name) and x.func.value.id in containers]
+        if not stores:
+            continue
+        locals_ = {x.id for x in ast.walk(fi.node) if isinstance(x, ast.Name) and isinstance(x.ctx, ast.Store)}
+        for st in stores:
+            g = st.targets[0].value.id if isinstance(st, ast.Assign) else st.func.value.id
+            if g in locals_:
+                continue  # shadowed by a local of the same name
+            n += 1
+            res.touch(fi)
+            key = st.targets[0].slice if isinstance(st, ast.Assign) else (st.args[0] if st.args else None)
+            from ..dataflow import single_def_value
+
+            kexpr = key
+            if isinstance(kexpr, ast.Name):
+                kexpr = single_def_value(fi.node, kexpr.id) or kexpr
+            elems = list(kexpr.elts) if isinstance(kexpr, ast.Tuple) else [kexpr]
+            partial = []
+            for el in elems:
+                for x in ast.walk(el):
+                    if isinstance(x, ast.Call) and (dotted(x.func) or "") in ("getattr", "repr", "str", "id", "type") and x.args and not isinstance(x.args[0], ast.Constant):
+                        partial.append(unparse(x)[:50])
+                    elif isinstance(x, ast.Attribute) and isinstance(x.ctx, ast.Load) and x.attr in ("name", "__name__", "shape", "size") :
+                        partial.append(unparse(x)[:50])
+            if partial:
+                res.violation(
+                    rule,
+                    fi,
+                    st,
+                    f"{fi.qualname} memoises its result in the module-level container `{g}` under a key built from {partial}: a projection of an input, not the input — {what}; "
+                    "two different inputs with the same projection (e.g. two cosmologies of the same name) share one cached result",
+                    key_extra=f"memo-key-{fi.qualname}-{g}",
+                )
+            else:
+                raise AnalysisError(f"{rule}: hand-rolled memoisation of {fi.short} in `{g}`: completeness of the key {unparse(kexpr)[:60]} cannot be decided")
+    if n == 0:
+        res.ok(rule, "no memoisation", "no functools cache decorator and no module-level result cache in scope: every result is recomputed from its inputs", nontrivial=False)
